@@ -370,6 +370,8 @@ fn c13_poll_message_body(v5: bool) {
     assert!(p.poll() == poll(pollv), "poll exponent in the header");
     kani::cover!(n == 8 && l == 32 && content[31] == 0x55, "eight cookies requested");
     kani::cover!(n == 1 && l == 0, "empty cookie, no placeholder");
+    // not dropped: the drop glue of a Vec of fields of symbolic length and kind is a large loop
+    core::mem::forget(p);
 }
 
 nharness! {
